@@ -203,7 +203,7 @@ func genRender(t *Tracer, m *Meta, tier string, seed int64) {
 	}
 	nMed, maxN := 40, 500
 	if !quick {
-		nMed, maxN = 300, 3000
+		nMed, maxN = 120, 2000
 	}
 	fams := []string{"palette", "twosym", "paletteDeep", "wide", "samehigh", "uniform", "prefixes", "palette", "twosym", "caterpillar", "ascii", "nibdiv", "mixed"}
 	for i := 0; i < nMed; i++ {
